@@ -52,7 +52,7 @@ def gen_cases(ctx):
         for perm in itertools.permutations(range(n)):
             for pname, pf in patterns.items():
                 times = [round(pf(i, n), 4) for i in range(n)]
-                for ids in ("auto", "explicit"):
+                for ids in ("auto", "explicit", "type_twins"):
                     base = {"n": n, "ids": ids, "pattern": pname,
                             "answers": [[times[k], "answer", perm[k]] for k in range(n)]}
                     yield base
@@ -99,7 +99,10 @@ def exec_case(ctx, case: Dict[str, Any]) -> None:
             try:
                 res = await send_message(pipe.read, pipe.write, "tools/call", {"tag": f"caller-{i}"},
                                          timeout=TIMEOUT,
-                                         message_id=(f"id-{i}" if case["ids"] == "explicit" else None))
+                                         message_id=(f"id-{i}" if case["ids"] == "explicit" else
+                                                     # ids that differ only in their JSON type: 1, "1", 2, "2"
+                                                     ((i // 2 + 1) if i % 2 == 0 else str(i // 2 + 1))
+                                                     if case["ids"] == "type_twins" else None))
                 outcomes[i] = ("return", res, loop.time() - t0, t0)
             except BaseException as e:  # noqa
                 if isinstance(e, (KeyboardInterrupt, SystemExit)):
